@@ -204,7 +204,7 @@ def canon_exc(e: BaseException) -> dict:
         elif isinstance(e, dltype.DLTypeInvalidReferenceError):
             m = _RX["InvalidRef"].match(s)
             if m:
-                valid = [x for x in m[3].split(", ") if x != ""]
+                valid = sorted(x for x in m[3].split(", ") if x != "")   # the order of the listed names is not part of the report
                 return {"v": "reject", "kind": "InvalidRef", "name": m[1], "missing": m[2], "valid": valid}
         elif isinstance(e, dltype.DLTypeUnsupportedTensorTypeError):
             return {"v": "reject", "kind": "Unsupported"}
@@ -229,7 +229,7 @@ def parse_dlerr(words: list[str]) -> dict:
     if kind == "Duplicate":
         return {"v": "reject", "kind": "Duplicate", "name": unhex(kv["name"])}
     if kind == "InvalidRef":
-        valid = [unhex(x) for x in kv["valid"].split(",") if x]
+        valid = sorted(unhex(x) for x in kv["valid"].split(",") if x)
         return {"v": "reject", "kind": "InvalidRef", "name": unhex(kv["name"]), "missing": unhex(kv["missing"]), "valid": valid}
     if kind in ("Unsupported", "ScopeProvider"):
         return {"v": "reject", "kind": kind}
